@@ -28,7 +28,6 @@ compared unless the model binds them explicitly.
 from __future__ import annotations
 
 import ast
-import atexit
 import inspect
 import os
 import shutil
@@ -58,7 +57,8 @@ ASSUMPTIONS = [
     "not compared (import-history dependent at runtime; documented special case of is_wildcard_exposed)",
     "one statement per line (Griffe orders re-bindings by line number); only module-level imports; no TYPE_CHECKING "
     "guards, no conditional definitions, no external packages",
-    "order and duplicates of __all__ are not compared (irrelevant to `import *`)",
+    "order and duplicates of __all__ are not compared (irrelevant to `import *`); a name used to splice another module's "
+    "__all__ (`x_all`, `mod`) is bound exactly once in the module, as in the documented forms",
     "the simulated namespace in vp/gen/c05_pkg.py only decides which names the generator may mention, which names fall "
     "under the sub-module tolerance and how failures are bucketed; every verdict compares Griffe with CPython",
 ]
@@ -69,13 +69,15 @@ SHRINK_MAX_EXAMPLES = 4000
 _SCRATCH: list = [None, None]
 
 
-def _scratch() -> Path:
-    if _SCRATCH[0] is None or not Path(_SCRATCH[0]).is_dir() or _SCRATCH[1] != os.getpid():
-        base = "/dev/shm" if os.access("/dev/shm", os.W_OK) else None
-        d = tempfile.mkdtemp(prefix=f"verif-{ID}-", dir=os.environ.get("VERIF_TMP") or base)
-        _SCRATCH[:] = [d, os.getpid()]
-        atexit.register(shutil.rmtree, d, ignore_errors=True)
-    return Path(_SCRATCH[0])
+def case_root(top: str):
+    """(directory for one case, directory to delete afterwards). Inside a search shard the per-process scratch dir of
+    the harness is used; elsewhere (replay, witness tier, shrink worker) a private temporary directory per case, so that
+    nothing is left behind even when the process is killed between cases or exits without running atexit handlers."""
+    if _SCRATCH[0] is not None and _SCRATCH[1] == os.getpid() and Path(_SCRATCH[0]).is_dir():
+        return G.fresh_dir(Path(_SCRATCH[0]), top + "_d"), None
+    base = "/dev/shm" if os.access("/dev/shm", os.W_OK) else None
+    own = tempfile.mkdtemp(prefix=f"verif-{ID}-", dir=os.environ.get("VERIF_TMP") or base)
+    return G.fresh_dir(Path(own), top + "_d"), own
 
 
 def use_scratch(path: Path) -> None:
@@ -140,7 +142,7 @@ def check_case(case) -> list[Fail]:
     from griffe import AliasResolutionError, CyclicAliasError
 
     top = G.unique_pkg_name()
-    root = G.fresh_dir(_scratch(), top + "_d")
+    root, own = case_root(top)
     try:
         G.write_files(root, G.render(case, top))
         try:
@@ -288,7 +290,7 @@ def check_case(case) -> list[Fail]:
                     )
         return fails
     finally:
-        shutil.rmtree(root, ignore_errors=True)
+        shutil.rmtree(own or root, ignore_errors=True)
 
 
 _GRIFFE_KIND = {
@@ -424,4 +426,4 @@ def describe(case):
 def run_shard(ctx) -> None:
     use_scratch(ctx.tmp)
     strat, salt = strategy(ctx)
-    ctx.run_hypothesis(strat, check_case, ctx.scale(2500, 30000), describe=describe, salt=salt)
+    ctx.run_hypothesis(strat, check_case, ctx.scale(2000, 30000), describe=describe, salt=salt)
